@@ -285,6 +285,28 @@ fn check_encoding(cx: &Cx, v: &RefVal, label: &str, bytes: &[u8], family: &str) 
             return;
         }
     }
+    // where the zero-copy decoder reads the encoding at all, it reads the same value
+    if let Ok(b) = erltf::decode_borrowed(bytes) {
+        let g = denote(&b.to_owned());
+        if !exact_eq(&g, v) && !(has_num_equal_keys(v) && exact_eq(&g, &collapse_as_is(v, label.contains("M[1, 0]")))) {
+            rep.violation("decoded term denotes a different value", json!({"family": family, "entry": "decode_borrowed", "value": v.short(), "decoded": g.short(), "alternatives": label, "bytes": hex(bytes)}));
+        }
+    }
+    // two complete terms in a row are a control term and its payload for the cache-aware entry point; anything after the
+    // payload is trailing data there as well
+    if bytes.len() <= 64 {
+        let mut two = bytes.to_vec(); two.extend_from_slice(&bytes[1..]); // (the payload follows without a version byte of its own)
+        let mut cache = erltf::AtomCache::new();
+        let pair_ok = matches!(erltf::decode_with_atom_cache(&two, &mut cache), Ok((c, Some(p))) if exact_eq(&denote(&c), v) || has_num_equal_keys(v) || { let _ = &p; false });
+        for junk in [&[0u8][..], &[106u8][..], &[131u8, 106][..], &[97u8, 1][..]] {
+            let mut three = two.clone(); three.extend_from_slice(junk);
+            let mut cache = erltf::AtomCache::new();
+            if pair_ok && erltf::decode_with_atom_cache(&three, &mut cache).is_ok() {
+                rep.violation("trailing bytes after a complete term are ignored", json!({"family": family, "entry": "decode_with_atom_cache (control term, payload, then more bytes)", "value": v.short(), "trailing": hex(junk)}));
+                break;
+            }
+        }
+    }
     // the integer accessor of a decoded integer: the value when it fits 64 bits, nothing otherwise
     if let RefVal::Int(i) = v {
         if let Ok(t) = erltf::decode(bytes) {
@@ -417,6 +439,12 @@ pub fn run(rep: &Report) -> serde_json::Value {
         composites.push(RefVal::map(vec![(k1.clone(), RefVal::atom("a")), (k2.clone(), RefVal::atom("b"))]));
         composites.push(RefVal::Tuple(vec![RefVal::map(vec![(k2.clone(), RefVal::int(1)), (k1.clone(), RefVal::int(2))])]));
         composites.push(RefVal::map(vec![(k1, RefVal::atom("a")), (k2, RefVal::atom("b")), (RefVal::atom("z"), RefVal::Nil)]));
+    }
+    // improper lists whose tail is an empty container or another "empty-looking" term (none of them is the empty list)
+    for tail in [RefVal::Tuple(vec![]), RefVal::binary(&[]), RefVal::map(vec![]), RefVal::atom(""), RefVal::int(0), RefVal::float(0.0), RefVal::Bits { bytes: vec![0], nbits: 1 }, RefVal::Tuple(vec![RefVal::Nil])] {
+        composites.push(RefVal::list(vec![RefVal::atom("a"), RefVal::int(7)], tail.clone()));
+        composites.push(RefVal::list(vec![RefVal::int(1)], tail.clone()));
+        composites.push(RefVal::Tuple(vec![RefVal::list(vec![RefVal::Nil], tail)]));
     }
     // maps of two keys over every pair of a key alphabet: numbers that are close but not equal (an integer one above a
     // power of two next to the float of that power), and one value of every kind and shape of term; keys that are
